@@ -23,13 +23,13 @@ def R(mod, name, cfg="rc"):
 PROPS = {
     "C17": dict(
         rules=[R("dispatch", "rule_metakey_tables"), R("dispatch", "rule_dispatch_refs"), R("dispatch", "rule_dispatch_order"),
-               R("dispatch", "rule_obj_defaults"), R("arith", "rule_rem_zero")],
+               R("dispatch", "rule_obj_defaults"), R("dispatch", "rule_dispatch_operands"), R("arith", "rule_rem_zero")],
         clause="The metakey tables are total and name-preserving end to end (R-METAKEY-TABLES); each operator function "
                "references only its own metakeys and object methods and applies its own number operation (R-DISPATCH-REFS); "
                "the arm priority equals the documented order with each metamap arm guarded by its own key "
-               "(R-DISPATCH-ORDER); KotoObject defaults report unimplemented or derive as documented (R-OBJ-DEFAULTS); "
-               "`x % y` and `x %= y` agree on the zero-divisor guard (R-REM-ZERO). Not decided: operand order, lookup order "
-               "through @meta/@base, results.",
+               "(R-DISPATCH-ORDER); a function found under `@r…` runs with the right operand as its instance (R-DISPATCH-OPERANDS); KotoObject defaults report unimplemented or derive as documented (R-OBJ-DEFAULTS); "
+               "`x % y` and `x %= y` agree on the zero-divisor guard (R-REM-ZERO). Not decided: lookup order through @meta/@base, results of "
+               "overloaded operators, operands of host-object calls.",
         technique="table reconstruction from HIR arm lists and MIR aggregates; per-function reference census",
     ),
     "C20": dict(
